@@ -13,8 +13,6 @@ package getput
 //@   trusted
 //@ func (dht.QueryResult).TraversalQueryResult
 //@   trusted
-//@ func dht.NewAddr
-//@   trusted
 //@ func (dht/krpc.NodeAddr).UDP
 //@   trusted
 
